@@ -410,3 +410,7 @@ mod test {
         }
     }
 }
+
+#[cfg(kani)]
+#[path = "/verif/kani/aranya-runtime/io.rs"]
+mod verif_kani;
